@@ -23,9 +23,10 @@
 (*    that kind whose whole name matches, -1 if none; the empty pattern     *)
 (*    matches every name.                                                   *)
 (*                                                                         *)
-(* TLC enumerates every canonical AST of <= MaxNodes nodes over `Alphabet`  *)
-(* and the classes in `ClassCells`, checks the invariants and prints one    *)
-(* CASE line per AST: pattern bytes + expected index per kind.              *)
+(* The model builds every canonical AST of <= MaxNodes nodes over `Alphabet` *)
+(* and the classes in `ClassCells` (postfix construction, one state per     *)
+(* AST), checks the invariants on each and prints one CASE line per AST:    *)
+(* pattern bytes + expected index per kind.                                 *)
 (*                                                                         *)
 (* Excluded from the enumeration (Admissible): an unbounded quantifier      *)
 (* (star/plus) over an operand that can match the empty string, contains    *)
@@ -206,13 +207,26 @@ Rn(t, k) ==
 Render(t) == IF t = <<>> THEN <<>> ELSE Rn(t, Len(t))
 
 \* ------------------------------------------------------------------------------------------------
-\* enumeration of canonical ASTs
+\* enumeration of canonical ASTs: the model builds every pattern in postfix order
+\*
+\* A node array in post-order layout IS the postfix (RPN) form of the pattern: a leaf pushes a subtree,
+\* a unary node wraps the top subtree, a binary node joins the two top subtrees.  Every canonical AST has
+\* exactly one postfix form, so the state graph is a tree whose states with a single pending subtree are
+\* exactly the ASTs of <= MaxNodes nodes (plus the empty pattern), each reached once.
 
 Leaves == {<<"lit", b, 0, 0>> : b \in Alphabet} \cup {<<"any", 0, 0, 0>>} \cup {<<"cls", c, 0, 0>> : c \in 1..NClass}
 
 Shift(t, d) == [k \in 1..Len(t) |-> <<t[k][1], t[k][2],
                                       IF t[k][3] = 0 THEN 0 ELSE t[k][3] + d,
                                       IF t[k][4] = 0 THEN 0 ELSE t[k][4] + d>>]
+
+\* the subtree rooted at node k as an AST of its own (post-order layout: it occupies k-size+1 .. k)
+Subtree(t, k) == LET RECURSIVE Sz(_)
+                     Sz(x) == IF Kind(t, x) \in LeafKinds THEN 1
+                              ELSE IF Kind(t, x) \in UnaryKinds THEN 1 + Sz(L(t, x))
+                              ELSE 1 + Sz(L(t, x)) + Sz(R(t, x))
+                     s == Sz(k)
+                 IN Shift(SubSeq(t, k - s + 1, k), 0 - (k - s))
 
 \* bytes that can occur in a name (used to decide whether two alternatives can start with the same byte)
 NameBytes == UNION {{Devices[d].name[i] : i \in 1..Len(Devices[d].name)} : d \in 1..NDev} \cup Alphabet
@@ -225,51 +239,60 @@ Quantifiable(t) ==
      /\ \A k \in 1..n : Kind(t, k) \notin {"star", "plus"}
      /\ \A k \in 1..n : Kind(t, k) = "alt" => Starts(L(t, k)) \cap Starts(R(t, k)) = {}
 
-\* (TLCEval makes TLC build the explicit sets: enumerating a lazily represented union of 10^4 sequences is quadratic)
-RECURSIVE Trees(_)
-Trees(n) ==
-  IF n = 1 THEN {<<lf>> : lf \in Leaves}
-  ELSE TLCEval(
-       {Append(t, <<u, 0, n - 1, 0>>) : t \in Trees(n - 1), u \in {"grp", "opt"}}
-       \cup {Append(t, <<u, 0, n - 1, 0>>) : t \in {x \in Trees(n - 1) : Quantifiable(x)}, u \in {"star", "plus"}}
-       \cup UNION { {lt \o Shift(rt, i) \o << <<b, 0, i, n - 1>> >> : lt \in Trees(i), rt \in Trees(n - 1 - i), b \in BinaryKinds}
-                    : i \in 1..(n - 2) })
-
-AllASTs == TLCEval({<<>>} \cup UNION {Trees(n) : n \in 1..MaxNodes})
-
-\* every quantifier in t sits on a quantifiable operand (closed under taking subtrees by construction)
-Subtree(t, k) == LET RECURSIVE Sz(_)
-                     Sz(x) == IF Kind(t, x) \in LeafKinds THEN 1
-                              ELSE IF Kind(t, x) \in UnaryKinds THEN 1 + Sz(L(t, x))
-                              ELSE 1 + Sz(L(t, x)) + Sz(R(t, x))
-                     s == Sz(k)
-                 IN Shift(SubSeq(t, k - s + 1, k), 0 - (k - s))
 Admissible(t) == \A k \in 1..Len(t) : Kind(t, k) \in {"star", "plus"} => Quantifiable(Subtree(t, L(t, k)))
 
-\* ------------------------------------------------------------------------------------------------
-\* the model: one behaviour per AST
+VARIABLES ast,    \* nodes emitted so far (postfix)
+          stk,    \* roots of the pending subtrees, innermost last
+          phase   \* "build" | "chk" | "done"
+vars == <<ast, stk, phase>>
 
-VARIABLES ast, phase
-vars == <<ast, phase>>
+Init == ast = <<>> /\ stk = <<>> /\ phase = "build"
 
-Init == ast \in AllASTs /\ phase = "new"
+\* nodes still needed to join the pending subtrees into one must fit into the bound
+Fits(nodes, pending) == nodes + (pending - 1) <= MaxNodes
+
+PushLeaf ==
+  /\ phase = "build"
+  /\ Fits(Len(ast) + 1, Len(stk) + 1)
+  /\ \E lf \in Leaves : ast' = Append(ast, lf)
+  /\ stk' = Append(stk, Len(ast) + 1)
+  /\ phase' = phase
+
+ApplyUnary ==
+  /\ phase = "build"
+  /\ Len(stk) >= 1
+  /\ Fits(Len(ast) + 1, Len(stk))
+  /\ LET top == stk[Len(stk)] IN
+     /\ \E u \in UnaryKinds :
+          /\ u \in {"star", "plus"} => Quantifiable(Subtree(ast, top))
+          /\ ast' = Append(ast, <<u, 0, top, 0>>)
+     /\ stk' = [stk EXCEPT ![Len(stk)] = Len(ast) + 1]
+  /\ phase' = phase
+
+ApplyBinary ==
+  /\ phase = "build"
+  /\ Len(stk) >= 2
+  /\ Fits(Len(ast) + 1, Len(stk) - 1)
+  /\ \E b \in BinaryKinds : ast' = Append(ast, <<b, 0, stk[Len(stk) - 1], stk[Len(stk)]>>)
+  /\ stk' = Append(SubSeq(stk, 1, Len(stk) - 2), Len(ast) + 1)
+  /\ phase' = phase
+
+\* a complete pattern (one pending subtree, or the empty pattern) is handed to the checks
+Complete ==
+  /\ phase = "build"
+  /\ Len(stk) <= 1
+  /\ phase' = "chk"
+  /\ UNCHANGED <<ast, stk>>
 
 Expect(t) == {<<kd, Select(kd, t)>> : kd \in Kinds}
-
-\* TLC evaluates invariants of initial states on one thread; the first step only moves the AST into the
-\* phase in which the invariants below are evaluated, so that all workers share that work.
-Begin ==
-  /\ phase = "new"
-  /\ phase' = "chk"
-  /\ ast' = ast
 
 EmitCase ==
   /\ phase = "chk"
   /\ phase' = "done"
-  /\ ast' = ast
+  /\ UNCHANGED <<ast, stk>>
   /\ Emit = 1 => PrintT(<<"CASE", ToJson([ast |-> ast, pat |-> Render(ast), exp |-> Expect(ast)])>>)
 
-Next == Begin \/ EmitCase
+Next == PushLeaf \/ ApplyUnary \/ ApplyBinary \/ Complete \/ EmitCase
 Spec == Init /\ [][Next]_vars
 
 \* --- invariants (evaluated once per AST) ----------------------------------------------------------
